@@ -931,6 +931,11 @@ func (m *Machine) libModel(pkg, name string, fn *ssa.Function, args []Value) (Va
 		return nil, false
 	case "time.Now":
 		unsupported("time.Now reached without a harness stub")
+	case "(time.Time).Add", "(time.Time).Sub", "(time.Time).Equal", "(time.Time).Before", "(time.Time).After":
+		if r, ok := m.timeModel(name, args); ok {
+			return r, true
+		}
+		return nil, false
 	case "time.initLocal":
 		return nil, true // the local zone behaves as UTC
 	case "time.Sleep":
@@ -1075,3 +1080,102 @@ func (m *Machine) formatDecimal(v *Term) Value {
 }
 
 func pow10(k int) *big.Int { return new(big.Int).Exp(big.NewInt(10), big.NewInt(int64(k)), nil) }
+
+// ---- time.Time arithmetic on wall-clock-only values (no monotonic reading) ----
+// A time.Time is {wall uint64, ext int64, loc}; without the monotonic flag, wall holds the
+// nanoseconds (< 2^30) and ext the seconds since year 1. The models below are the normalised
+// form of the library's Add/Sub/Equal/Before/After for such values (int mode).
+
+func wallOnly(t *Term) bool {
+	if t.C != nil {
+		return t.C.BitLen() <= 30
+	}
+	return t.Lo != nil && t.Lo.Sign() >= 0 && t.Hi != nil && t.Hi.BitLen() <= 30
+}
+
+func (m *Machine) timeParts(v Value) (st *Struct, wall, ext *Term, ok bool) {
+	st, isS := v.(*Struct)
+	if !isS || len(st.F) != 3 {
+		return nil, nil, nil, false
+	}
+	wall, ok1 := st.F[0].V.(*Term)
+	ext, ok2 := st.F[1].V.(*Term)
+	if !ok1 || !ok2 || !wallOnly(wall) {
+		return nil, nil, nil, false
+	}
+	return st, wall, ext, true
+}
+
+func (m *Machine) timeModel(name string, args []Value) (Value, bool) {
+	if bvMode {
+		return nil, false
+	}
+	st, wall, ext, ok := m.timeParts(args[0])
+	if !ok {
+		return nil, false
+	}
+	e9 := mkI(1000000000, 64)
+	switch name {
+	case "(time.Time).Add":
+		d := args[1].(*Term)
+		if wall.C != nil && ext.C != nil && d.C != nil {
+			return nil, false // concrete: run the library code
+		}
+		// q = floor(d / 1e9), r = d - q*1e9 in [0, 1e9)
+		q := &Term{S: "(div " + d.S + " 1000000000)", K: KInt, W: 64}
+		r := &Term{S: "(mod " + d.S + " 1000000000)", K: KInt, W: 64, Lo: big0, Hi: big.NewInt(999999999)}
+		if d.C != nil {
+			qq := new(big.Int).Div(d.C, e9.C)
+			rr := new(big.Int).Mod(d.C, e9.C)
+			q, r = mkConst(qq, 64), mkConst(rr, 64)
+		} else {
+			if d.Lo != nil {
+				q.Lo = new(big.Int).Div(d.Lo, e9.C)
+			}
+			if d.Hi != nil {
+				q.Hi = new(big.Int).Div(d.Hi, e9.C)
+			}
+		}
+		ns := rawAdd(wall, r)
+		carry := tCmp("ge", ns, e9, true)
+		newNs := m.nameTerm(tIte(carry, rawSub(ns, e9), ns))
+		newNs.Lo, newNs.Hi = big0, big.NewInt(999999999)
+		newNs.W = 64
+		sec := rawAdd(rawAdd(ext, q), tIte(carry, mkI(1, 64), mkI(0, 64)))
+		lo, hi := typeRange(64, true)
+		if sec.Lo == nil || sec.Hi == nil || sec.Lo.Cmp(lo) < 0 || sec.Hi.Cmp(hi) > 0 {
+			return nil, false // possible saturation: leave it to the library code
+		}
+		res := copyVal(st).(*Struct)
+		res.F[0].V = newNs
+		res.F[1].V = m.nameTerm(sec)
+		return res, true
+	case "(time.Time).Sub", "(time.Time).Equal", "(time.Time).Before", "(time.Time).After":
+		_, wall2, ext2, ok2 := m.timeParts(args[1])
+		if !ok2 {
+			return nil, false
+		}
+		if wall.C != nil && ext.C != nil && wall2.C != nil && ext2.C != nil {
+			return nil, false
+		}
+		switch name {
+		case "(time.Time).Equal":
+			return tAnd(tEq(ext, ext2), tEq(wall, wall2)), true
+		case "(time.Time).Before":
+			return tOr(tCmp("lt", ext, ext2, true), tAnd(tEq(ext, ext2), tCmp("lt", wall, wall2, true))), true
+		case "(time.Time).After":
+			return tOr(tCmp("gt", ext, ext2, true), tAnd(tEq(ext, ext2), tCmp("gt", wall, wall2, true))), true
+		}
+		d := rawAdd(rawMul(rawSub(ext, ext2), e9), rawSub(wall, wall2))
+		lo, hi := typeRange(64, true)
+		if d.Lo != nil && d.Hi != nil && d.Lo.Cmp(lo) >= 0 && d.Hi.Cmp(hi) <= 0 {
+			return m.nameTerm(d), true
+		}
+		// saturating
+		d = m.nameTerm(d)
+		sat := tIte(tCmp("gt", d, mkConst(hi, 64), true), mkConst(hi, 64), tIte(tCmp("lt", d, mkConst(lo, 64), true), mkConst(lo, 64), d))
+		sat.Lo, sat.Hi = lo, hi
+		return m.nameTerm(sat), true
+	}
+	return nil, false
+}
